@@ -184,7 +184,7 @@ impl Property for C03 {
         }
         // counter / size thresholds: a child repeated n times inside one parent occurrence, n parent occurrences
         let ns: &[usize] = match tier {
-            Tier::Quick => &[2, 3, 15, 16, 17, 31, 32, 33, 63, 64, 65, 127, 128, 129, 254, 255, 256, 257, 258, 511, 512, 513, 1023, 1024, 1025],
+            Tier::Quick => &[2, 3, 15, 16, 17, 31, 32, 33, 63, 64, 65, 127, 128, 129, 254, 255, 256, 257, 258, 511, 512, 513, 1023, 1024, 1025, 65535, 65536, 65537],
             Tier::Thorough => &[2, 3, 15, 16, 17, 31, 32, 33, 63, 64, 65, 127, 128, 129, 254, 255, 256, 257, 258, 511, 512, 513, 1023, 1024, 1025, 4095, 4096, 4097, 65535, 65536, 65537],
         };
         for n in ns {
@@ -246,7 +246,7 @@ impl Property for C03 {
         }
     }
     fn rule(&self) -> String {
-        "small-scope exhaustive: every ordered pair of documents over {root r, child names a,b, attribute k, optional text} with <= 3 elements (quick; 300k pairs) or <= 4 elements (thorough; 76M pairs) and depth <= 3, plus all triples over <= 2 (quick) / <= 3 (thorough) elements and all 4-tuples over <= 2 elements (thorough); an attribute-list family (every triple of occurrences whose attribute lists are ordered subsets of a, b, ab, ba); a threshold family (a child repeated n times inside one parent occurrence / n parent occurrences, n around every power of two up to 1024, up to 65537 in thorough); sampled: tape-decoded sequences of 1..5 well-formed documents over small per-case name pools (all name classes, 1 in 8 wide), full surface variation; compared with an independent reference inference over the generator's DOM at two observation points (rendered structs, returned Element tree). Non-trivial = the reference schema holds at least one Optional or Vec decision and some position has two or more occurrences; distinct by hash of the structural documents.".into()
+        "small-scope exhaustive: every ordered pair of documents over {root r, child names a,b, attribute k, optional text} with <= 3 elements (quick; 300k pairs) or <= 4 elements (thorough; 76M pairs) and depth <= 3, plus all triples over <= 2 (quick) / <= 3 (thorough) elements and all 4-tuples over <= 2 elements (thorough); an attribute-list family (every triple of occurrences whose attribute lists are ordered subsets of a, b, ab, ba); a threshold family (a child repeated n times inside one parent occurrence / n parent occurrences, n around every power of two up to 1024 and around 65536; thorough adds 4096); sampled: tape-decoded sequences of 1..5 well-formed documents over small per-case name pools (all name classes, 1 in 8 wide), full surface variation; compared with an independent reference inference over the generator's DOM at two observation points (rendered structs, returned Element tree). Non-trivial = the reference schema holds at least one Optional or Vec decision and some position has two or more occurrences; distinct by hash of the structural documents.".into()
     }
     fn assumptions(&self) -> Vec<String> {
         vec![
